@@ -35,6 +35,7 @@ implementor!(M3, 3, String, String::from("three"));
 implementor!(M4, 4, [u8; 4000], [4; 4000]);
 implementor!(M5, 5, Vec<u32>, vec![5, 5]);
 implementor!(M6, 6, u32, 6);      // its CastFrom implementation is wrong (changes the address)
+implementor!(M7, 7, u64, 7);      // its CastFrom implementation is right while `register` runs and wrong afterwards
 
 unsafe impl CastFrom<M0> for dyn Obj { fn cast(t: *mut M0) -> *mut Self { t } }
 unsafe impl CastFrom<M1> for dyn Obj { fn cast(t: *mut M1) -> *mut Self { t } }
@@ -47,7 +48,16 @@ unsafe impl CastFrom<M6> for dyn Obj {
     fn cast(_t: *mut M6) -> *mut Self { unsafe { std::ptr::addr_of_mut!(ELSEWHERE) as *mut M6 } }
 }
 
-pub const NTY: u64 = 7;
+/// true only while MetaTable::register is being called: a cast that behaves during registration (or for a probe
+/// pointer) and moves the address at every later use must still be rejected when it is used
+static REGISTERING: std::sync::atomic::AtomicBool = std::sync::atomic::AtomicBool::new(false);
+unsafe impl CastFrom<M7> for dyn Obj {
+    fn cast(t: *mut M7) -> *mut Self {
+        if REGISTERING.load(std::sync::atomic::Ordering::SeqCst) { t } else { unsafe { std::ptr::addr_of_mut!(ELSEWHERE) as *mut M7 } }
+    }
+}
+
+pub const NTY: u64 = 8;
 pub const BAD: u64 = 6;
 
 macro_rules! with_m {
@@ -55,7 +65,8 @@ macro_rules! with_m {
         match $ty {
             0 => { type $T = M0; $body } 1 => { type $T = M1; $body } 2 => { type $T = M2; $body }
             3 => { type $T = M3; $body } 4 => { type $T = M4; $body } 5 => { type $T = M5; $body }
-            _ => { type $T = M6; $body }
+            6 => { type $T = M6; $body }
+            _ => { type $T = M7; $body }
         }
     };
 }
@@ -108,7 +119,12 @@ pub fn observe(ops: &[Op]) -> String {
     for o in ops {
         let world: &'static World = unsafe { &*wp };
         let res: String = match o {
-            Op::Reg(k) => { with_m!(*k, T => table.register::<T>()); "u".into() }
+            Op::Reg(k) => {
+                REGISTERING.store(true, std::sync::atomic::Ordering::SeqCst);
+                with_m!(*k, T => table.register::<T>());
+                REGISTERING.store(false, std::sync::atomic::Ordering::SeqCst);
+                "u".into()
+            }
             Op::Ins(k, s, p) => {
                 if !holds.is_empty() { "pe".into() } else {
                     let w: &mut World = unsafe { &mut *wp };
